@@ -14,6 +14,9 @@
 // GetPackagesWithDependencies(allArchs)) over a pool of index objects; observed
 // per call: the answer, the set the disqualification cache holds under the
 // call's key, and the uncached disqualifyDifference with its messages.
+//
+// stage conc: see conc.go (concurrent per-architecture resolutions with an index
+// whose Packages() stalls).
 package main
 
 import (
@@ -78,7 +81,7 @@ func main() {
 	out := flag.String("out", "", "cases dir")
 	seed := flag.Uint64("seed", 1, "seed")
 	tier := flag.String("tier", "quick", "tier")
-	stage := flag.String("stage", "multiarch", "multiarch|dqcache")
+	stage := flag.String("stage", "multiarch", "multiarch|dqcache|conc")
 	flag.String("replay", "", "unused: cases are regenerated from the seed")
 	flag.Parse()
 	slog.SetDefault(slog.New(slog.NewTextHandler(io.Discard, nil)))
@@ -88,6 +91,8 @@ func main() {
 		err = stageMultiarch(*out, *seed, *tier)
 	case "dqcache":
 		err = stageDqcache(*out, *seed, *tier)
+	case "conc":
+		err = stageConc(*out, *seed, *tier)
 	default:
 		err = fmt.Errorf("unknown stage %q", *stage)
 	}
